@@ -351,6 +351,36 @@ pub fn scenario(family: &str, seed: u64) -> Scenario {
             sc.linger_us = 3_000_000;
             sc.deadline_us = 60_000_000;
         }
+        // a slow one-way trickle that lasts several idle timeouts: the sender hears nothing but acknowledgements
+        "trickle" => {
+            net.delay_us = pick(rng, &[5_000u64, 20_000]);
+            let idle = pick(rng, &[4_000u64, 10_000]);
+            for l in [&mut sc.c, &mut sc.s] { l.idle_ms = idle; }
+            let opener = pick(rng, &["c", "s"]);
+            sc.streams = vec![StreamSpec { opener: opener.into(), bidi: false, send: 200, chunk: 10, finish: true,
+                                           write_delay_us: idle * 1000 * pick(rng, &[3u64, 6]) / 10, ..Default::default() }];
+            sc.deadline_us = 300_000_000;
+        }
+        // stream / connection credit updates get lost while the reader consumes in small steps and the sender has used
+        // up everything it was granted; afterwards the network is perfect
+        "credit_loss" => {
+            net.delay_us = pick(rng, &[5_000u64, 20_000]);
+            net.drop = pick(rng, &[60u32, 120, 200]);
+            net.heal_at_us = Some(pick(rng, &[3_000_000u64, 8_000_000]));
+            for l in [&mut sc.c, &mut sc.s] {
+                l.sd_uni = pick(rng, &[4_000u64, 10_000]);
+                l.sd_bidi_remote = pick(rng, &[4_000u64, 10_000]);
+                l.sd_bidi_local = pick(rng, &[4_000u64, 10_000]);
+                l.data_window = pick(rng, &[8_000u64, 20_000, 1 << 20]);
+                l.idle_ms = 30_000;
+            }
+            let n = rng.random_range(1..3);
+            sc.streams = (0..n).map(|_| StreamSpec { opener: pick(rng, &["c", "s"]).into(), bidi: rng.random_bool(0.4), send: pick(rng, &[30_000u64, 80_000]), reply: 0,
+                                                    chunk: pick(rng, &[1_000usize, 4_096, 30_000]), reply_chunk: 1000, finish: true,
+                                                    read_delay_us: pick(rng, &[0u64, 0, 2_000, 40_000]), read_mode: pick(rng, &["", "", "tokio4096", "vec8", "tokio64"]).to_string(),
+                                                    ..Default::default() }).collect();
+            sc.deadline_us = 200_000_000;
+        }
         // the network dies for good at some point of the handshake or transfer: both applications must learn it
         "blackhole" => {
             let at = pick(rng, &[1_000u64, 30_000, 90_000, 200_000, 600_000, 2_000_000]);
